@@ -124,7 +124,7 @@ def stepSpec (op : String) (a : LSt) : Option (String × LSt) :=
     if arg = "c" then some ("n", a.newLit a.r)
     else arg.toNat?.map fun r => ("n", a.newLit r)
   | 'e' => some (let (l, a) := a.endLit; ("e" ++ toHex l, a))
-  | 'q' => some (let (o, l, c) := a.nextPos; (s!"q{o},{l},{c}", a))
+  | 'q' => some (let ((o, l, c), a) := a.pos; (s!"q{o},{l},{c}", a))
   | 'b' =>
     match arg.splitOn "," with
     | [o, d] =>
@@ -143,7 +143,7 @@ def showSpecState (a : LSt) : String :=
   let lit := match a.lit with
     | none => "~"
     | some l => toHex l.reverse
-  s!"L {a.line} {a.col} {a.r} {a.w} {a.lastBqEsc} {a.openBq} {a.openBqDbl} {showErr a.err} {lit}"
+  s!"L {a.line} {a.col} {a.r} {a.w} {a.lastBqEsc} {a.openBq} {a.openBqDbl} {showErr a.err} {lit} ok={a.ok.toNat}"
 
 open ShVerif.C07 in
 def runSpec : List String → LSt → List String → String
